@@ -217,6 +217,24 @@ where
     | [] => [x]
     | y :: ys => if x ≤ y then x :: y :: ys else y :: insertSortedStr' x ys
 
+/-- The rows the harness attaches as a payload: the relation evaluated by the engines themselves
+(processed, then executed), with every state change discarded - NOT the reference semantics
+(they differ on data that is not key-determined). -/
+def rowsOf (d : Drv) (r : Rel) : List Row :=
+  match processTop d.sigma d.st d.sqlSt r with
+  | (.ok res, ps) =>
+    let p := res.get r
+    match p.engine.kind with
+    | .iter =>
+      match exec d.sigma p.engine p ps.st with
+      | .ok (it, _) => it.rowsD d.sigma
+      | .error _ => sem d.sigma r
+    | .sql =>
+      match sqlRun ps.sq ps.store p with
+      | .inr (out, _) => out.rows
+      | .inl _ => sem d.sigma r
+  | _ => sem d.sigma r
+
 def step (d : Drv) (cmd : List Sexp) : Drv × String :=
   match cmd with
   | [atom "tags", list ts] =>
@@ -558,7 +576,8 @@ def step (d : Drv) (cmd : List Sexp) : Drv × String :=
     match d.rel? n with
     | none => (d, "bad-ref")
     | some r =>
-      let ex : Option (Rel → Bool) := if mode == "truthful" then some (fun x => !(sem d.sigma x).isEmpty) else none
+      -- the harness's truthful executor evaluates with the engines themselves (`rowsOf`)
+      let ex : Option (Rel → Bool) := if mode == "truthful" then some (fun x => !(rowsOf d x).isEmpty) else none
       let res := Diagnostics.run ex r
       (d, s!"ok doomed={showBool res.isDoomed} messages={res.messages}")
   -- (attach rN): attach a fresh payload object to the relation itself
@@ -571,12 +590,12 @@ def step (d : Drv) (cmd : List Sexp) : Drv × String :=
       | .ok oid =>
           match r.engine.kind with
           | .iter =>
-            ({ d with st := { d.st with payloads := (oid, .seq (sem d.sigma r)) :: d.st.payloads } }, "ok attached")
+            ({ d with st := { d.st with payloads := (oid, .seq (rowsOf d r)) :: d.st.payloads } }, "ok attached")
           | .sql =>
             let idx := d.sqlSt.tables.length
             let name := s!"att{idx}"
             let pay : SqlPayload := { frm := .table name 0 idx, avail := r.columns.map (fun t => (t, SqlExpr.col name t)) }
-            ({ d with sqlSt := { d.sqlSt with tables := d.sqlSt.tables ++ [sem d.sigma r],
+            ({ d with sqlSt := { d.sqlSt with tables := d.sqlSt.tables ++ [rowsOf d r],
                                               payloads := (oid, pay) :: d.sqlSt.payloads } }, "ok attached")
   -- (process rN rM): Processor.process
   | [atom "process", atom n, atom tn] =>
